@@ -34,7 +34,8 @@ PARAMS = _PARAMS[(_SEED // 3) % len(_PARAMS)]
 FIXED = ('a_fix', 'Z_fix')   # a_fix sorts between B2 and b10; Z_fix sorts before a_fix but is met after it in the fillers
 FREE = [n for n in PARAMS if n not in FIXED]
 # second parameter point: a dictionary naming only some parameters
-PARTIAL = {'b_z': 1.5, 'B2': 0.25} if _SEED % 2 == 0 else {'b10': -0.25, 'b_a': 0.5}
+# (one named value is exactly 0.0 while the declared value is not: a supplied zero is a value, not "nothing supplied")
+PARTIAL = {'b_z': 1.5, 'B2': 0.0} if _SEED % 2 == 0 else {'b10': 0.0, 'b_a': 0.5}
 
 
 def param_points():
